@@ -25,6 +25,7 @@ type Prov struct {
 	closures map[*ssa.Function]*ssa.MakeClosure // closure fn -> its (unique) MakeClosure
 	visiting map[ssa.Value]bool
 	depth    int
+	CopyIsFresh bool // effect analysis: Copy()/Clone() results are fresh memory, not the argument
 	allocDepth map[ssa.Value]int
 	loadCtx  []ssa.Instruction // the load instruction(s) through which the current value is read
 	reachMemo map[[2]*ssa.BasicBlock]bool
@@ -213,6 +214,27 @@ func (pv *Prov) storesTo(al *ssa.Alloc, field int) (whole []ssa.Value, fieldVals
 		}
 		if len(fieldSt) == len(fieldVals) && len(fieldVals) > 1 {
 			fieldVals = pv.killDead(fieldSt, fieldVals, ld)
+		}
+		// a field store that dominates the load kills earlier whole-struct stores for that field
+		if field >= 0 && len(fieldSt) > 0 && len(wholeSt) == len(whole) && len(whole) > 0 && ld.Block() != nil {
+			var latest *ssa.Store
+			for _, s := range fieldSt {
+				if s.Block() == nil || s.Block().Parent() != ld.Block().Parent() {
+					continue
+				}
+				if (s.Block() == ld.Block() && instrBefore(s, ld)) || (s.Block() != ld.Block() && s.Block().Dominates(ld.Block())) {
+					latest = s
+				}
+			}
+			if latest != nil {
+				var keep []ssa.Value
+				for i, w := range wholeSt {
+					if pv.storeReaches(latest, w) && !(w.Block() == latest.Block() && instrBefore(w, latest) && !pv.blockInCycle(w.Block())) {
+						keep = append(keep, whole[i])
+					}
+				}
+				whole = keep
+			}
 		}
 	}()
 	var scan func(refs []ssa.Instruction, addr ssa.Value)
@@ -567,11 +589,25 @@ func (pv *Prov) Atom(v ssa.Value, env *Env) string {
 		for _, a := range x.Call.Args {
 			args = append(args, pv.Atom(a, env))
 		}
-		// Share/Copy/Move of an element are identity for provenance
+		// Share/Copy/Move of an element are identity for provenance (for effect analysis Copy is fresh memory)
 		if f := x.Call.StaticCallee(); f != nil && f.Pkg != nil && f.Pkg.Pkg.Path() == modPath+"/types" && len(args) == 1 {
 			switch f.Name() {
-			case "Share", "Copy", "Move":
+			case "Share", "Move":
 				return args[0]
+			case "Copy":
+				if pv.CopyIsFresh {
+					return "fresh(Copy " + args[0] + ")"
+				}
+				return args[0]
+			}
+		}
+		if f := x.Call.StaticCallee(); f != nil && pv.CopyIsFresh {
+			switch f.String() {
+			case "slices.Clone", "bytes.Clone":
+				return "fresh(Clone " + strings.Join(args, ",") + ")"
+			}
+			if strings.HasPrefix(f.String(), "slices.Clone[") {
+				return "fresh(Clone " + strings.Join(args, ",") + ")"
 			}
 		}
 		if b, ok := x.Call.Value.(*ssa.Builtin); ok {
